@@ -1,9 +1,76 @@
 import KG.Base.Json
-/-! Driver entry points for property C01 (filled in by the C01 model). -/
+import KG.Spec.Match
+/-! Driver entry points for C01 (rule matching) — also used by C17. Byte strings travel as hex. -/
 namespace KG.Driver.C01
-open Lean
+open Lean KG KG.Model.Match KG.Spec.Match
 
-/-- `handle method args`: `none` when the method is unknown. -/
-def handle (_m : String) (_a : Json) : Option (Except String Json) := none
+def decodeSA (j : Json) : Except String SA := do
+  pure { ns := ← J.getHex j "ns", name := ← J.getHex j "name" }
+
+def decodeRule (j : Json) : Except String Rule := do
+  let sas ← (← J.getArr j "serviceAccounts").toList.mapM decodeSA
+  pure { verbs := ← J.getHexList j "verbs", apiGroups := ← J.getHexList j "apiGroups",
+         resources := ← J.getHexList j "resources", resourceNames := ← J.getHexList j "resourceNames",
+         users := ← J.getHexList j "users", serviceAccounts := sas,
+         userGroups := ← J.getHexList j "userGroups", nonResourceURLs := ← J.getHexList j "nonResourceURLs" }
+
+def encodeRule (r : Rule) : Json :=
+  J.obj [("verbs", J.hexList r.verbs), ("apiGroups", J.hexList r.apiGroups), ("resources", J.hexList r.resources),
+         ("resourceNames", J.hexList r.resourceNames), ("users", J.hexList r.users),
+         ("serviceAccounts", Json.arr (r.serviceAccounts.map fun sa => J.obj [("ns", J.hex sa.ns), ("name", J.hex sa.name)]).toArray),
+         ("userGroups", J.hexList r.userGroups), ("nonResourceURLs", J.hexList r.nonResourceURLs)]
+
+def decodeAttrs (j : Json) : Except String Attrs := do
+  pure { verb := ← J.getHex j "verb", user := ← J.getHex j "user", groups := ← J.getHexList j "groups",
+         isResource := ← J.getBool j "isResource", apiGroup := ← J.getHex j "apiGroup",
+         resource := ← J.getHex j "resource", subresource := ← J.getHex j "subresource",
+         name := ← J.getHex j "name", path := ← J.getHex j "path" }
+
+def decodePolicies (j : Json) (k : String) : Except String (List Policy) := do
+  (← J.getArr j k).toList.mapM fun p => do
+    (← p.getArr?).toList.mapM decodeRule
+
+def optIdx : Option Nat → Json
+  | some i => J.nat i
+  | none => J.int (-1)
+
+/-- `C01.match {attrs, policies}`: model (`matchPolicies`, per-rule `ruleMatches`) and the declarative judge
+    (`firstMatchSpec`, per-rule `ruleSpec`). -/
+def doMatch (a : Json) : Except String Json := do
+  let attrs ← decodeAttrs (← J.getObj a "attrs")
+  let ps ← decodePolicies a "policies"
+  pure <| J.obj [
+    ("idx", optIdx (matchPolicies attrs ps)),
+    ("rules", Json.arr (ps.map fun p => Json.arr (p.map fun r => J.bool (ruleMatches attrs r)).toArray).toArray),
+    ("spec_idx", optIdx (firstMatchSpec attrs ps)),
+    ("spec_rules", Json.arr (ps.map fun p => Json.arr (p.map fun r => J.bool (ruleSpec attrs r)).toArray).toArray)]
+
+/-- `C01.field {field, rules, req, reqs, sub, sas}`: one field matcher, model and spec. -/
+def doField (a : Json) : Except String Json := do
+  let field ← J.getStr a "field"
+  let rules ← J.getHexList a "rules"
+  let req ← J.getHex a "req"
+  let (m, s) ← match field with
+    | "verb" => pure (verbMatches rules req, fieldSpec false (posEq req) rules)
+    | "apiGroup" => pure (apiGroupMatches rules req, fieldSpec false (posEq req) rules)
+    | "resource" => do
+        let sub ← J.getHex a "sub"
+        pure (resourceMatches rules req sub, fieldSpec false (posResource req sub) rules)
+    | "resourceName" => pure (resourceNameMatches rules req, fieldSpec true (posEq req) rules)
+    | "user" => do
+        let sas ← (← J.getArr a "sas").toList.mapM decodeSA
+        pure (userOrSAMatches rules sas req, userSpec rules sas req)
+    | "userGroup" => do
+        let reqs ← J.getHexList a "reqs"
+        pure (userGroupMatches rules reqs, fieldSpec true (posGroup reqs) rules)
+    | "url" => pure (nonResourceURLMatches rules req, urlSpec rules req)
+    | _ => throw s!"unknown field {field}"
+  pure <| J.obj [("model", J.bool m), ("spec", J.bool s)]
+
+def handle (m : String) (a : Json) : Option (Except String Json) :=
+  match m with
+  | "match" => some (doMatch a)
+  | "field" => some (doField a)
+  | _ => none
 
 end KG.Driver.C01
